@@ -97,7 +97,8 @@ def perIdx (lt : Nat) : Option Nat :=
 /-! ## `esl_mem_IsReal` and the one observable bit of `strtod` -/
 
 /-- the main loop of `esl_mem_IsReal`: `none` = `return FALSE` from inside the loop; `some (rest, gotreal)` = the loop was
-    left (at a space, or at the end).  Any byte that is not a digit, '.', 'e', 'E' or a space is skipped (sic). -/
+    left (at a space, or at the end).  Any byte that is not a digit, '.', 'e', 'E' or a space is skipped (sic: trailing garbage
+    after a number stays tolerated, Pfam writes "#=GF GA 25.00 25.00;"). -/
 def isRealBody : Bytes → Bool → Bool → Nat → Option (Bytes × Nat)
   | [], _, _, r => some ([], r)
   | c :: rest, gotdec, gotexp, r =>
@@ -107,8 +108,8 @@ def isRealBody : Bytes → Bool → Bool → Nat → Option (Bytes × Nat)
     else if isSpace c then some (c :: rest, r)
     else isRealBody rest gotdec gotexp r
 
-/-- `esl_mem_IsReal(p, n)` -/
-def memIsReal (p : Bytes) : Bool :=
+/-- `esl_mem_IsReal(p, n)` as it was before fix 8112354: everything but the "number must START here" test -/
+def memIsReal0 (p : Bytes) : Bool :=
   if p.isEmpty then false
   else
     let p1 := p.dropWhile isSpace
@@ -118,6 +119,20 @@ def memIsReal (p : Bytes) : Bool :=
     match isRealBody p2 false false 0 with
     | none => false
     | some (rest, r) => (rest.dropWhile isSpace).isEmpty && r > 0
+
+/-- the test fix 8112354 added after the blanks and one sign: `if (! n || ! (isdigit(*p) || (*p == '.' && n > 1 &&
+    isdigit(p[1])))) return FALSE;` — "abc1", "--1", "e5", "x.5" are no reals (`atof` converts nothing there) -/
+def realStartOk (p : Bytes) : Bool :=
+  let p1 := p.dropWhile isSpace
+  let p2 := match p1 with
+    | c :: r => if c == 45 || c == 43 then r else p1
+    | [] => p1
+  match p2 with
+  | c :: r => isDigit c || (c == 46 && (match r with | d :: _ => isDigit d | [] => false))
+  | [] => false
+
+/-- `esl_mem_IsReal(p, n)`: the start test returns FALSE early, otherwise the scan is the old one -/
+def memIsReal (p : Bytes) : Bool := realStartOk p && memIsReal0 p
 
 def digitsVal (ds : Bytes) : Nat := ds.foldl (fun a c => a * 10 + (c.toNat - 48)) 0
 
